@@ -29,14 +29,14 @@ ASSUMPTIONS = ['name alphabet {a,b,c} with <=3 components stored and <=4 queried
 WITNESSES = ['ambiguous', 'exact_precedence', 'unknown', 'minimal_shorter_than_full', 'copy_diverged',
              'pop_pruned', 'spelling_pair_same_key', 'hook_conflict_detected', 'api_ambiguous_rejected']
 
-POOL_Q = ['b', 'a.b', 'c.a.b', 'c.b', 'a.a', 'b.a', 'a.c.b', 'c']
-POOL_T = POOL_Q + ['a', 'b.a.b', 'a.b.a', 'c.c.b', 'b.c', 'b.b']
+POOL_Q = ['b', 'a.b', 'c.a.b', 'c.b', 'a.a', 'b.a', 'a.c.b', 'c', 'a.B']
+POOL_T = POOL_Q + ['a', 'b.a.b', 'a.b.a', 'c.c.b', 'b.c', 'b.b', 'B', 'A.b', '_x1.b']
 INVALID = ['', 'a..b', '.a', 'a.', '1a', 'a b', 'a/b']
 
 
 def bound(tier):
   return ('A: %d names, depth<=%d, queries len<=%d over {a,b,c}; B: full spelling x API product' %
-          ((len(POOL_Q), 5, 3) if tier == 'quick' else (len(POOL_T), 7, 4)))
+          ((len(POOL_Q), 4, 3) if tier == 'quick' else (len(POOL_T), 6, 4)))
 
 
 def queries(maxlen):
@@ -44,7 +44,7 @@ def queries(maxlen):
   for n in range(1, maxlen + 1):
     for t in itertools.product('abc', repeat=n):
       out.append('.'.join(t))
-  return out + ['d', 'a.d', 'd.a']
+  return out + ['d', 'a.d', 'd.a', 'B', 'a.B', 'A.b', 'A', 'c.a.B', '_x1.b', '_x1']
 
 
 # ----------------------------------------------------------------------------- reference model
@@ -289,7 +289,7 @@ def replay_hist(hist, pool, qs):
 def run_a(ctx, res):
   quick = ctx.quick
   pool = POOL_Q if quick else POOL_T
-  depth = 5 if quick else 7
+  depth = 4 if quick else 6
   qs = queries(3 if quick else 4)
   _CFG.update(pool=pool, qs=qs)
   ctx.close()  # workers must be forked after _CFG is set
@@ -470,6 +470,9 @@ def hook_cases():
     for a, b in itertools.product(HOOK_SPELLINGS, HOOK_SPELLINGS):
       for form in ['str', 'tuple']:
         yield ['hook', scope, a, b, form]
+  for bsp in ['batch = 7', 'batch/macro.value = 7', 'batch/gin.macro.value = 7']:
+    for rsp in ['%batch', '@batch/macro()', '@batch/gin.macro()']:
+      yield ['macro_spelling', bsp, rsp]
   for c in ['KONST', 'mod.KONST', 'cpk.mod.KONST', 'cother.mod.KONST', 'zz.KONST', 'pk.mod.KONST']:
     for how in ['macro', 'query']:
       yield ['const', c, how]
@@ -477,6 +480,23 @@ def hook_cases():
 
 def run_hook_case(case, res):
   harness.hard_reset()
+  if case[0] == 'macro_spelling':
+    _, bsp, rsp = case
+    res.case(tuple(case), True)
+    try:
+      gin.parse_config(bsp + '\ncons.consumer.r = ' + rsp)
+      got = CONSUMER()
+      gin.finalize()
+      out = 'ok'
+    except Exception as e:  # pylint: disable=broad-except
+      got, out = e, type(e).__name__
+    res.outcome('macro_spelling:' + out)
+    if out != 'ok' or got != 7:
+      res.violation('macro_spelling_key', 'macro bound as %r and referenced as %r: %s %r (every spelling of one name '
+                    'is the same key; finalize must accept the bound macro)' % (bsp, rsp, out, got), case)
+    else:
+      res.w('spelling_pair_same_key')
+    return
   if case[0] == 'const':
     _, c, how = case
     res.case(tuple(case), True)
@@ -539,7 +559,7 @@ def _run_b_chunk(chunk):
   res = core.Result()
   for case in chunk:
     try:
-      if case[0] in ('hook', 'const'):
+      if case[0] in ('hook', 'const', 'macro_spelling'):
         run_hook_case(case, res)
       else:
         run_b_case(case, res)
@@ -566,7 +586,7 @@ def run(ctx):
 def replay(obj):
   if obj and isinstance(obj[0], str):
     res = core.Result()
-    if obj[0] in ('hook', 'const'):
+    if obj[0] in ('hook', 'const', 'macro_spelling'):
       run_hook_case(obj, res)
     else:
       run_b_case(obj, res)
